@@ -130,6 +130,57 @@ def compare(name, legacy, new, res, case, note=''):
                  % (name, lp, ll, str(ld)[:160], np_, nl, str(nd)[:160], note), case)
 
 
+def _legacy_calls(pos):
+    """the legacy entry points as (label, function of a walker)"""
+    def tk(t):
+        arg = t.arg
+        if t.tok == 'specials':
+            arg = arg.specials_chars
+        return [t.tok, arg, t.pos, t.pos_end, t.pre_space]
+
+    def triple(r):
+        if r is None:
+            return None
+        n, p, l = r
+        return (norm(dump(n)) if n is not None else None, p, l)
+    return [
+        ('get_token()', lambda w: tk(w.get_token(pos))),
+        ('get_token(environments=False)', lambda w: tk(w.get_token(pos, environments=False))),
+        ('get_token(brackets_are_chars=False)', lambda w: tk(w.get_token(pos, brackets_are_chars=False))),
+        ('get_latex_expression', lambda w: triple(w.get_latex_expression(pos, strict_braces=True))),
+        ('get_latex_maybe_optional_arg', lambda w: triple(w.get_latex_maybe_optional_arg(pos))),
+        ('get_latex_braced_group([)', lambda w: triple(w.get_latex_braced_group(pos, brace_type='['))),
+        ('get_latex_nodes(})', lambda w: triple(w.get_latex_nodes(pos, stop_upon_closing_brace='}'))),
+        ('get_latex_nodes(read_max_nodes=1)', lambda w: triple(w.get_latex_nodes(pos, read_max_nodes=1))),
+        ('get_latex_nodes($)', lambda w: triple(w.get_latex_nodes(pos, stop_upon_closing_mathmode='$'))),
+        ('get_latex_braced_group({)', lambda w: triple(w.get_latex_braced_group(pos))),
+        ('get_token() again', lambda w: tk(w.get_token(pos))),
+        ('get_latex_expression again', lambda w: triple(w.get_latex_expression(pos, strict_braces=True))),
+    ]
+
+
+def check_same_walker(s, positions, res):
+    """the legacy entry points called one after the other on ONE walker object (as pylatexenc-2
+    code does) give what each gives on a walker of its own: no call leaves anything behind"""
+    w = walker(s)
+    for pos in positions:
+        for label, fn in _legacy_calls(pos):
+            res.case()
+            a = attempt(lambda: fn(w))
+            b = attempt(lambda: fn(walker(s)))
+            if a[0] == 'exc':
+                res.fail('exc:%s@legacy:%s' % (a[1], label), str(a),
+                         {'what': 'same-walker', 's': s, 'pos': pos})
+                return
+            if a != b and b[0] != 'exc':
+                res.fail('c16:same-walker-history:%s' % label,
+                         '%r at %d: %s on a walker that served earlier calls gives %s, on a fresh '
+                         'walker %s' % (s, pos, label, str(a)[:200], str(b)[:200]),
+                         {'what': 'same-walker', 's': s, 'pos': pos})
+                return
+    res.label('same-walker-history')
+
+
 def check_nodes_variants(s, pos, res):
     from pylatexenc.latexnodes import parsers as P
     w = walker(s)
@@ -737,7 +788,7 @@ def plan(tier, seed):
                                  'both-succeed:get_latex_nodes(stop_upon_closing_mathmode=$)',
                                  'both-succeed:get_latex_environment',
                                  'both-succeed:get_latex_braced_group([)',
-                                 'legacy-4-tuple-states', 'args_math_mode', 'tolerant-walkers',
+                                 'legacy-4-tuple-states', 'args_math_mode', 'same-walker-history', 'tolerant-walkers',
                                  'both-succeed:expression(parsing_state=)',
                                  'both-succeed:braced_group(parsing_state=)']}
 
@@ -760,6 +811,8 @@ def run_shard(shard, res):
             for pos in positions[:-1] if len(positions) > 1 else positions:
                 check_nodes_variants(s, pos, res)
                 check_single_variants(s, pos, res)
+            if zlib.crc32(s.encode('utf-8')) % 3 == 1:
+                check_same_walker(s, positions[:-1] if len(positions) > 1 else positions, res)
             _MODE['tolerant'] = False
             if any(t in ('{', '[', '$', '\\textbf', '\\begin{x}', '\\sqrt') for t in toks):
                 res.nontriv_distinct()
@@ -788,7 +841,9 @@ def check_case(case, res):
         import zlib
         _MODE['tolerant'] = zlib.crc32(case['s'].encode('utf-8')) % 3 == 0
         try:
-            if w == 'nodes':
+            if w == 'same-walker':
+                check_same_walker(case['s'], list(range(0, case['pos'] + 1)), res)
+            elif w == 'nodes':
                 check_nodes_variants(case['s'], case['pos'], res)
             else:
                 check_single_variants(case['s'], case['pos'], res)
